@@ -93,7 +93,11 @@ class Recorder:
 
         def factory(loop: Any, coro: Any, **kw: Any) -> Any:
             t = LTask(coro, loop=loop, **kw)
-            rec.add('new', task=t, by=_cur())
+            target = None
+            if getattr(coro, '__qualname__', '') == 'stop_daemon' and getattr(coro, 'cr_frame', None) is not None:
+                d = coro.cr_frame.f_locals.get('daemon')          # the Daemon this stopper was spawned for
+                target = getattr(d, 'task', None)
+            rec.add('new', task=t, by=_cur(), stops=target)
             t.add_done_callback(rec._done)
             return t
 
@@ -468,12 +472,33 @@ def translate(res: Result) -> Translation:
         else:
             st['main'] = 'returned-cancelled'
 
+    # daemons the killer's exit sweep really asked to stop: the targets of its 'exiting stopper' tasks
+    asked_runners = {id(e['stops']) for e in res.events
+                     if e['ev'] == 'new' and e.get('stops') is not None and task_label(e['task']).startswith('exiting stopper of ')}
+    killer_cancelled_at = next((e['order'] for e in res.events if e['ev'] == 'cancel' and task_label(e['task']) == 'daemon killer'
+                                and e['by'] is not None), None)
+
+    def do_sweep(e: dict) -> None:
+        st['swept'] = True
+        st['asked'] = [d for d in daemons_live if tphase.get(d) != 'done']
+        emit('Sweep', e)
+        live_ids = {rid for rid, term in runner_of.items() if term in st['asked']}
+        if not live_ids <= asked_runners or not asked_runners <= set(runner_of):
+            tr.problems.append('the daemon killer\'s sweep is not a snapshot of the running daemons: stoppers made for '
+                               f'{sorted(runner_of.get(r, "?") for r in asked_runners)}, running at the sweep {sorted(st["asked"])}')
+
+    runner_of: dict[int, str] = {}
     for e in res.events:
         ev = e['ev']
         if ev == 'new':
             t = e['task']
             i = classify(t, e['by'])
             info[id(t)] = i
+            if i['kind'] == 'daemon' and not st['swept'] and tphase.get('(TRoot RKiller)') == 'ending' \
+                    and id(t) not in asked_runners and killer_cancelled_at is not None and e['order'] > killer_cancelled_at:
+                do_sweep(e)         # this daemon was born after the snapshot: the sweep (snapshot) lies before its creation
+            if i['kind'] == 'daemon':
+                runner_of[id(t)] = i['term']
             if i['kind'] in ('watcher', 'keepalive', 'worker', 'daemon'):
                 o = owner(e['by'])
                 emit(f"Spawn {i['term']} {o['term'] if o else 'TAuth'}", e)
@@ -561,9 +586,7 @@ def translate(res: Result) -> Translation:
             if bo is not None and bo.get('root') == 'RKiller' and ti is not None and ti['term'] is None and not st['swept'] \
                     and tphase.get('(TRoot RKiller)') == 'ending':
                 # daemon_killer's finally is past its sweep loop: it closes its own scheduler (cleaner/spawner tasks)
-                st['swept'] = True
-                st['asked'] = [d for d in daemons_live if tphase.get(d) != 'done']
-                emit('Sweep', e)
+                do_sweep(e)
             if ti is None or ti['term'] is None or bo is None:
                 continue
             if bo.get('root') == 'ROrch' and ti['kind'] in ('watcher', 'keepalive'):
@@ -655,12 +678,8 @@ def translate(res: Result) -> Translation:
                 continue
             p = tphase.get(term, 'run')
             if ti.get('root') == 'RKiller' and p == 'ending' and not st['swept']:
-                st['swept'] = True
-                st['asked'] = [d for d in daemons_live]
-                emit('Sweep', e)
-            if ti.get('root') == 'RKiller' and p == 'ending' and e['out'] == 'err':
-                emit('SweepFail', e)
-            elif ti.get('root') == 'RKiller' and p == 'ending':
+                do_sweep(e)
+            if ti.get('root') == 'RKiller' and p == 'ending' and e['out'] != 'err':
                 for dterm in st['asked']:
                     if tphase.get(dterm) != 'done':
                         emit(f"GraceTimeout (GAbandon {daemons_live[dterm]})", e)
@@ -685,9 +704,7 @@ def translate(res: Result) -> Translation:
             i = info[id(e['task'])]
             o = owner(e['by'])
             if i['name'].startswith('exiting stopper of ') and o is not None and o.get('root') == 'RKiller' and not st['swept']:
-                st['swept'] = True
-                st['asked'] = [d for d, _ in daemons_live.items() if tphase.get(d) != 'done']
-                emit('Sweep', e)
+                do_sweep(e)
     tr.brief = [f"{e['order']}:{e['ev']}:{task_label(e.get('task')) if e.get('task') is not None else e.get('activity', '')}"
                 f"{':' + e['out'] if 'out' in e else ''}" for e in res.events if e['ev'] != 'req'][:400]
     return tr
@@ -901,8 +918,10 @@ def daemon_facts(res: Result, tr: Translation, task: Any, daemons: list[dict]) -
 
 
 def sweep_before(tr: Translation, born: int | None) -> bool:
-    sw = [o for l, o in zip(tr.labels, tr.origin) if l == 'Sweep']
-    return bool(sw) and born is not None and sw[0] < born
+    """Does the label Sweep precede, in the label trace, the Spawn of the daemon whose runner task was created at `born`?"""
+    sw = [i for i, l in enumerate(tr.labels) if l == 'Sweep']
+    sp = [i for i, (l, o) in enumerate(zip(tr.labels, tr.origin)) if o == born and l.startswith('Spawn (TDaemon')]
+    return bool(sw) and bool(sp) and sw[0] < sp[0]
 
 
 def failed_core(res: Result) -> bool:
@@ -941,21 +960,6 @@ def match_f2001(f: dict) -> bool:
     obs = f.get('observed') or {}
     return bool(obs.get('spawned_after_shutdown_began')) and bool(obs.get('sweep_before_spawn')) and not obs.get('ever_asked_to_stop') \
         and not obs.get('killer_failed')
-
-
-def match_f2002(f: dict) -> bool:
-    """F2002: the daemon killer itself dies of 'dictionary changed size during iteration' in its exit sweep, and what follows
-    from that in the same run (daemons never asked to stop / alive during cleanup / the RuntimeError re-raised)."""
-    obs = f.get('observed') or {}
-    if f['sig'] == 'internal-task-failure':
-        return obs.get('task') == 'daemon killer' and 'dictionary changed size during iteration' in (obs.get('exc') or '')
-    if f['sig'] == 'daemon-not-asked':
-        return bool(obs.get('killer_failed')) and not obs.get('ever_asked_to_stop')
-    if f['sig'] == 'daemon-after-cleanup':      # asked or not: nobody waits for the stoppers once the killer is dead
-        return bool(obs.get('killer_failed'))
-    if f['sig'] == 'stop-raises':
-        return 'dictionary changed size during iteration' in str(obs)
-    return False
 
 
 # --------------------------------------------------------------------------------------------
@@ -1137,7 +1141,7 @@ def check_scenario(ctx: fw.Ctx, sc: dict, cases: list[fw.Case], label: str = '')
 
 
 def run(ctx: fw.Ctx) -> int:
-    ctx.matchers = {'F10': match_f10, 'F2001': match_f2001, 'F2002': match_f2002}
+    ctx.matchers = {'F10': match_f10, 'F2001': match_f2001}
     ctx.proofs()
     ok, logtxt = fw.build_models(['Model/Lifecycle.v'])
     if not ok:
@@ -1167,7 +1171,7 @@ def replay(ctx: fw.Ctx, body: dict) -> bool:
     sc = (body.get('case') or {})
     if 'trigger' not in sc:
         return False
-    ctx.matchers = {}
+    ctx.matchers = {'F10': match_f10, 'F2001': match_f2001}     # what is left counts: failures no open finding explains
     res = run_scenario(sc)
     tr = translate(res)
     monitors(ctx, res, tr)
